@@ -387,7 +387,7 @@ def container_cases(draw):
 
 
 def checks(tier):
-    n = {"quick": (2400, 1800, 600), "thorough": (48000, 36000, 12000)}.get(tier, (10, 10, 10))
+    n = {"quick": (2400, 1800, 600), "thorough": (24000, 18000, 6000)}.get(tier, (10, 10, 10))
     return [
         Check("tables", fn_table, strategy=table_cases(), examples=n[0]),
         Check("images", fn_image, strategy=image_cases(), examples=n[1]),
